@@ -46,17 +46,36 @@ def to_compact_rule(ck, ix):
         p = undominated(cfg, [c], guards)
         ck.check(p is None, "G-DOM", "to_compact|conversion-after-guards", f.loc(cfg.nodes[c].ast), "conversions happen only after the guards", "a conversion happens before the unitless/zero/NaN/inf guard", witness(cfg, p))
     # magnitude used for the prefix derives from the converted quantity
-    pw = [a for a in walk_local(f.node) if isinstance(a, ast.Assign) and norm(a.targets[0]) == "power"]
-    ck.check(len(pw) == 2, "G-PROV", "to_compact|two-power-formulas", f.loc(), "floor/ceil formulas present", f"{len(pw)} assignments of `power` found (expected floor and ceil branch)")
-    for a in pw:
-        roots = defs.roots(a.value)
+    # the prefix power: round(log10(|m|) / exponent / 3) * 3 with m the magnitude in the unprefixed unit, rounded down
+    # for a positive exponent and up for a negative one - whatever the spelling (if/else, conditional expression, ...)
+    from .. import shape
+    logs = [c for c in walk_local(f.node) if isinstance(c, ast.Call) and norm(c.func) in ("math.log10", "log10") and c.args and "abs(" in norm(c.args[0])]
+    ck.check(len(logs) >= 1, "G-PROV", "to_compact|two-power-formulas", f.loc(), "log10(|magnitude|) formula present", "no log10(abs(magnitude)) formula found in to_compact")
+    positive = lambda a_: isinstance(a_, ast.Compare) and len(a_.ops) == 1 and isinstance(a_.ops[0], ast.Gt) and norm(a_) == "unit_power > 0"
+    for lg in logs:
+        roots = defs.roots(lg.args[0])
         ok = any(r.startswith("q_base") for r in roots) and not any(r in ("qm", "quantity.magnitude") or r.startswith("quantity.magnitude") for r in roots)
-        ck.check(ok, "G-PROV", f"to_compact|prefix-from-converted-magnitude|{norm(a.value)[:20]}", f.loc(a), "the prefix is chosen from the magnitude in the unprefixed unit",
-                 f"`{norm(a)[:80]}`: the magnitude used to choose the prefix derives from {sorted(r for r in roots if 'magnitude' in r or r == 'qm')}, not from the quantity converted to the unprefixed unit (already-prefixed inputs get the wrong prefix)")
-        ck.check("/ float(unit_power) / 3) * 3" in norm(a.value), "G-PROV", f"to_compact|steps-of-three|{norm(a.value)[:20]}", f.loc(a), "log10(|m|) / exponent, in steps of 3", f"`{norm(a.value)}` is not floor/ceil(log10(|m|)/exponent/3)*3")
-    tests = [t for t in walk_local(f.node) if isinstance(t, ast.If) and norm(t.test) == "unit_power > 0"]
-    ok = bool(tests) and "math.floor" in norm(tests[0].body[0]) and "math.ceil" in norm(tests[0].orelse[0])
-    ck.check(ok, "G-PROV", "to_compact|floor-for-positive-ceil-for-negative", f.loc(), "floor for positive exponents, ceil for negative", "the floor/ceil choice by the sign of the exponent changed")
+        ck.check(ok, "G-PROV", f"to_compact|prefix-from-converted-magnitude|L{lg.lineno - f.node.lineno}", f.loc(lg), "the prefix is chosen from the magnitude in the unprefixed unit",
+                 f"`{norm(lg)}`: the magnitude used to choose the prefix derives from {sorted(r for r in roots if 'magnitude' in r or r == 'qm')}, not from the quantity converted to the unprefixed unit (already-prefixed inputs get the wrong prefix)")
+        # the enclosing rounding call and formula
+        call = getattr(lg, "_parent", None)
+        while call is not None and not (isinstance(call, ast.Call) and call is not lg and any(lg in ast.walk(a_) for a_ in call.args)):
+            call = getattr(call, "_parent", None)
+        ck.check(call is not None and "/ float(unit_power) / 3" in norm(call) and isinstance(getattr(call, "_parent", None), ast.BinOp) and norm(call._parent).endswith("* 3"), "G-PROV", f"to_compact|steps-of-three|L{lg.lineno - f.node.lineno}", f.loc(lg),
+                 "round(log10(|m|) / exponent / 3) * 3", f"`{norm(getattr(call, '_parent', call)) if call is not None else norm(lg)}` is not round(log10(|m|)/exponent/3)*3")
+        if call is None:
+            continue
+        fn_ = call.func
+        if isinstance(fn_, ast.Name):
+            fn_ = shape.dominating_def(fn_, f.node) or fn_      # one level: keep the condition as written
+        if isinstance(fn_, ast.IfExp):
+            pos_, truth = next(iter(shape.conjuncts(fn_.test, "t")), (None, None))
+            okr = pos_ is not None and positive(pos_) and ((truth and norm(fn_.body) == "math.floor" and norm(fn_.orelse) == "math.ceil") or (not truth and norm(fn_.body) == "math.ceil" and norm(fn_.orelse) == "math.floor"))
+        else:
+            nm = norm(fn_)
+            okr = nm in ("math.floor", "math.ceil") and shape.holds_at(call, f.node, positive, nm == "math.floor")
+        ck.check(okr, "G-PROV", f"to_compact|floor-for-positive-ceil-for-negative|L{lg.lineno - f.node.lineno}", f.loc(call), "floor for positive exponents, ceil for negative",
+                 f"`{norm(call.func)}` is applied on the wrong side of `unit_power > 0`: the power must be rounded down for a positive exponent and up for a negative one")
     ren = [c for c in walk_local(f.node) if isinstance(c, ast.Call) and call_name(c) == "rename"]
     newname = ren[0].args[1] if ren else None
     if isinstance(newname, ast.Name):
@@ -64,7 +83,14 @@ def to_compact_rule(ck, ix):
     ok = len(ren) == 1 and norm(ren[0].func.value) == "q_base._units" and norm(ren[0].args[0]) == "unit_str" and isinstance(newname, ast.BinOp) and isinstance(newname.op, ast.Add) and norm(newname.right) == "unit_str"
     ck.check(ok, "G-PROV", "to_compact|only-one-unit-renamed-with-prefix", f.loc(), "units change only by prefixing one entry", "to_compact no longer changes the units only by renaming one entry to prefix + unit")
     ck.check("index = bisect.bisect_left(SI_powers, power)" in norm(f.node) and "if index >= len(SI_bases)" in norm(f.node), "G-PROV", "to_compact|prefix-lookup", f.loc(), "prefix looked up by bisect, clamped", "the prefix lookup by bisect/clamp changed")
-    ck.check("q_base = quantity.to(unit)" in norm(f.node) and "infer_base_unit(quantity, registry=quantity._REGISTRY)" in norm(f.node), "G-PROV", "to_compact|unprefixed-base", f.loc(), "converted to the unprefixed unit first", "to_compact no longer converts to the unprefixed unit first")
+    inf = [c for c in walk_local(f.node) if isinstance(c, ast.Call) and call_name(c) == "infer_base_unit" and c.args]
+    srcs = set()
+    for c in inf:
+        x = shape.resolve(c.args[0], f.node)
+        srcs |= {norm(x.body), norm(x.orelse)} if isinstance(x, ast.IfExp) else {norm(x)}
+    tos = [c for c in walk_local(f.node) if isinstance(c, ast.Call) and call_name(c) == "to" and norm(c.func.value) == "quantity" and c.args and "call:infer_base_unit" in defs.roots(c.args[0])]
+    ck.check(bool(inf) and srcs == {"quantity", "quantity.__class__(1, unit)"} and all("registry=quantity._REGISTRY" in norm(c) for c in inf) and len(tos) >= 1, "G-PROV", "to_compact|unprefixed-base", f.loc(), "converted to the unprefixed unit (of the quantity or of the requested unit) first",
+             f"to_compact no longer converts to the unprefixed unit inferred from the quantity / the requested unit first (sources {sorted(srcs)})")
 
 
 
@@ -139,23 +165,43 @@ def run(ck, ix, tier):
         ck.analysed(fi)
         t = Tagger(ck, fi, "G-TAG", inplace=inplace)
         t.run()
+    # functional / in-place twins, compared by what they do (target, conversion, what is built or written), with
+    # extracted private helpers looked through: both forms convert to the same target T, the functional form returns
+    # self.__class__(conv_not_inplace(T), T), the in-place form writes self._magnitude = conv(T) and self._units = T
+    from .. import shape
+
+    def summary(fi, inplace):
+        fn = shape.inline_helpers(ix, fi)
+        conv = [c for c in walk_local(fn) if isinstance(c, ast.Call) and call_name(c) in ("_convert_magnitude", "_convert_magnitude_not_inplace") and c.args]
+        out = {"conv": sorted({call_name(c) for c in conv}), "target": sorted({shape.rnorm(c.args[0], fn) for c in conv}), "extra": sorted({norm(ast.Tuple(elts=list(c.args[1:]) + [k.value for k in c.keywords], ctx=ast.Load())) for c in conv})}
+        if inplace:
+            asg = {norm(a.targets[0]): a.value for a in walk_local(fn) if isinstance(a, ast.Assign) and norm(a.targets[0]) in ("self._magnitude", "self._units")}
+            out["units"] = shape.rnorm(asg["self._units"], fn) if "self._units" in asg else None
+            mv = shape.resolve(asg["self._magnitude"], fn) if "self._magnitude" in asg else None
+            out["mag_is_conv"] = isinstance(mv, ast.Call) and call_name(mv) == "_convert_magnitude"
+        else:
+            ctor = [c for r in shape.returns_of(fn) for c in [shape.resolve(r.value, fn)] if isinstance(c, ast.Call) and norm(c.func) in ("self.__class__", "type(self)") and len(c.args) == 2]
+            out["units"] = norm(ctor[0].args[1]) if ctor else None
+            out["mag_is_conv"] = bool(ctor) and isinstance(ctor[0].args[0], ast.Call) and call_name(ctor[0].args[0]) == "_convert_magnitude_not_inplace"
+        return out
+
     for q, reg in (("to", None), ("to_root_units", "_get_root_units"), ("to_base_units", "_get_base_units")):
         fa, fb = ix.func(PQ, f"PlainQuantity.{q}"), ix.func(PQ, f"PlainQuantity.i{q}")
-        na, nb = _twin_norm(fa.node, "to", method=True), _twin_norm(fb.node, "ito", method=True)
-        ck.check(na == nb, "G-TWIN", f"PlainQuantity.{q}/i{q}|same-target-same-conversion", fb.loc(), "in-place form converts to the same target as the functional form",
-                 f"PlainQuantity.i{q} is not the twin of {q}: {_first_diff(na, nb)}")
+        sa_, sb_ = summary(fa, False), summary(fb, True)
+        ok = sa_["target"] == sb_["target"] and len(sa_["target"]) == 1 and sa_["extra"] == sb_["extra"]
+        ck.check(ok, "G-TWIN", f"PlainQuantity.{q}/i{q}|same-target-same-conversion", fb.loc(), f"both forms convert to `{sa_['target']}`",
+                 f"PlainQuantity.i{q} is not the twin of {q}: the functional form converts to {sa_['target']} with {sa_['extra']}, the in-place form to {sb_['target']} with {sb_['extra']}")
+        for f, sm, inplace in ((fa, sa_, False), (fb, sb_, True)):
+            qn = f.qualname.split("::")[1]
+            ck.check(sm["mag_is_conv"] and sm["units"] is not None and [sm["units"]] == sm["target"], "G-TAG", f"{qn}|magnitude-and-units-same-target", f.loc(),
+                     "magnitude converted to, and units set to, the same target", f"{qn}: the magnitude is converted to {sm['target']} but the units are {sm['units']} (or the magnitude is not the converted one)")
+            ck.check(sm["conv"] == (["_convert_magnitude"] if inplace else ["_convert_magnitude_not_inplace"]), "G-OWN", f"{qn}|{'in-place' if inplace else 'copying'}-conversion-primitive", f.loc(),
+                     "in-place form uses the in-place primitive, functional form the copying one", f"{qn} uses {sm['conv']}")
         if reg:
             for f in (fa, fb):
                 cs = [c for c in walk_local(f.node) if isinstance(c, ast.Call) and call_name(c).startswith("_get_") and call_name(c).endswith("_units")]
                 ck.check(len(cs) == 1 and call_name(cs[0]) == reg and norm(cs[0].args[0]) == "self._units", "G-TWIN", f"{f.qualname.split('::')[1]}|target-from-{reg}", f.loc(),
                          f"target from {reg}(self._units)", f"{f.qualname.split('::')[1]} takes its target from `{norm(cs[0]) if cs else '?'}`")
-    # in-place forms: magnitude and units from the same `other`
-    for q in ("ito", "ito_root_units", "ito_base_units"):
-        f = ix.func(PQ, f"PlainQuantity.{q}")
-        asg = {norm(a.targets[0]): a.value for a in walk_local(f.node) if isinstance(a, ast.Assign) and norm(a.targets[0]) in ("self._magnitude", "self._units")}
-        ok = "self._magnitude" in asg and "self._units" in asg and isinstance(asg["self._magnitude"], ast.Call) and call_name(asg["self._magnitude"]) == "_convert_magnitude" \
-            and norm(asg["self._magnitude"].args[0]) == norm(asg["self._units"])
-        ck.check(ok, "G-TAG", f"PlainQuantity.{q}|magnitude-and-units-same-target", f.loc(), "magnitude converted to, and units set to, the same target", f"PlainQuantity.{q}: the magnitude is converted to one target and the units are set to another")
     m_as = ix.func(PQ, "PlainQuantity.m_as")
     ck.check("return self.to(units).magnitude" in norm(m_as.node), "G-TAG", "PlainQuantity.m_as|magnitude-of-conversion", m_as.loc(), "m_as = to(units).magnitude", "m_as is no longer the magnitude of to(units)")
 
@@ -180,22 +226,72 @@ def run(ck, ix, tier):
     # ------------------------------------------------------------ _get_reduced_units
     f = ix.func(QTO, "_get_reduced_units")
     ck.analysed(f)
-    outer = [l for l in walk_local(f.node) if isinstance(l, ast.For) and norm(l.iter) == "units.items()"]
+    from .. import shape
+    outer = [l for l in f.node.body if isinstance(l, ast.For) and any(isinstance(x, ast.Name) and x.id == "units" for x in ast.walk(l.iter))]
     if not outer:
-        raise AnalysisError("_get_reduced_units: outer loop not found")
-    g = [t for t in outer[0].body if isinstance(t, ast.If) and "not in units" in norm(t.test)]
-    ok = bool(g) and len(g[0].body) == 1 and isinstance(g[0].body[0], ast.Continue)
-    ck.check(ok, "G-PROV", "_get_reduced_units|eliminated-unit-skipped-not-aborting", f.loc(g[0]) if g else f.loc(), "an already eliminated unit is skipped (continue)",
+        raise AnalysisError("_get_reduced_units: outer loop over the units not found")
+    o = outer[0]
+    u1 = o.target.elts[0].id if isinstance(o.target, ast.Tuple) else o.target.id
+    inner = [l for l in ast.walk(o) if isinstance(l, ast.For) and l is not o and any(isinstance(x, ast.Name) and x.id == "units" for x in ast.walk(l.iter))]
+    u2 = inner[0].target.id if inner and isinstance(inner[0].target, ast.Name) else None
+    member = lambda a_: isinstance(a_, ast.Compare) and isinstance(a_.ops[0], ast.In) and norm(a_.left) == u1 and norm(a_.comparators[0]) == "units"
+    g = [t for t in o.body if isinstance(t, ast.If) and any(member(p_) for p_, _ in shape.atoms(t.test))]
+    ok = False
+    for t in g:
+        (p_, edge), = list(shape.atoms(t.test))
+        gone_side = t.orelse if edge == "t" else t.body     # statements executed when unit1 is no longer in units
+        ok = not any(isinstance(x, (ast.Break, ast.Return)) for st in gone_side for x in ast.walk(st)) and (edge == "t" or any(isinstance(st, ast.Continue) for st in gone_side))
+    ck.check(bool(g) and ok, "G-PROV", "_get_reduced_units|eliminated-unit-skipped-not-aborting", f.loc(g[0]) if g else f.loc(), "an already eliminated unit is skipped (continue)",
              "an already eliminated unit aborts the whole reduction (break) instead of being skipped: later mergeable pairs are left unmerged")
-    red = [a for a in walk_local(f.node) if isinstance(a, ast.Assign) and norm(a.targets[0]) == "units" and "add(" in norm(a.value)]
-    ok = len(red) == 1 and norm(red[0].value) == "units.add(unit2, exp / power).remove([unit1])"
-    ck.check(ok, "G-PROV", "_get_reduced_units|merge-by-exponent-over-ratio", f.loc(), "unit1**exp becomes unit2**(exp/power)", f"the merge step is `{norm(red[0].value) if red else '?'}`")
-    ck.check("_get_dimensionality_ratio(unit1, unit2)" in norm(f.node) and "if unit1 != unit2" in norm(f.node), "G-PROV", "_get_reduced_units|ratio-of-distinct-units", f.loc(), "ratio of distinct units", "the ratio is no longer computed for distinct unit pairs")
+    red = [a_ for a_ in walk_local(f.node) if isinstance(a_, ast.Assign) and norm(a_.targets[0]) == "units" and "add(" in norm(a_.value)]
+    m = shape.match("units.add(_B, _E / _P).remove([_A])", red[0].value) if len(red) == 1 else None
+    okm = m is not None and m["_A"] == u1 and m["_B"] == u2
+    if okm:
+        div = red[0].value.func.value.args[1]
+        ev, pv = shape.resolve(div.left, f.node), shape.resolve(div.right, f.node)
+        okm = norm(ev) in (f"units[{u1}]",) or norm(div.left) == "exp"
+        okm = okm and isinstance(pv, ast.Call) and call_name(pv) == "_get_dimensionality_ratio" and [norm(x) for x in pv.args] == [u1, u2]
+    ck.check(bool(okm), "G-PROV", "_get_reduced_units|merge-by-exponent-over-ratio", f.loc(red[0]) if red else f.loc(), "unit1**exp becomes unit2**(exp/ratio(unit1, unit2))", f"the merge step is `{norm(red[0].value) if red else '?'}` (expected units.add(unit2, units[unit1] / ratio(unit1, unit2)).remove([unit1]))")
+    rc = [c for c in walk_local(f.node) if isinstance(c, ast.Call) and call_name(c) == "_get_dimensionality_ratio"]
+    same = lambda a_: isinstance(a_, ast.Compare) and isinstance(a_.ops[0], ast.Eq) and sorted([norm(a_.left), norm(a_.comparators[0])]) == sorted([u1, u2 or ""])
+    ck.check(bool(rc) and all(shape.holds_at(c, f.node, same, False) for c in rc), "G-PROV", "_get_reduced_units|ratio-of-distinct-units", f.loc(), "ratio of distinct units", "the ratio is no longer computed only for distinct unit pairs (a unit would be merged into itself)")
     f = ix.func(PR, "GenericPlainRegistry._get_dimensionality_ratio")
     ck.analysed(f)
-    src = norm(f.node)
-    ck.check("ratios = (dim2[key] / val for key, val in dim1.items())" in src and "dim1.keys() != dim2.keys()" in src and "all((r == first for r in ratios))" in src, "G-PROV", "_get_dimensionality_ratio|common-ratio", f.loc(),
-             "ratio dim2/dim1 common to all dimensions, None when the dimension sets differ", "_get_dimensionality_ratio no longer computes the common exponent ratio dim2/dim1")
+    dfs = defs_of(f)
+    p1, p2 = [a_.arg for a_ in f.node.args.args][1:3]
+    dims = {}
+    for a_ in walk_local(f.node):
+        if isinstance(a_, ast.Assign) and isinstance(a_.targets[0], ast.Name) and isinstance(a_.value, ast.Call) and call_name(a_.value) == "get_dimensionality" and a_.value.args:
+            dims[norm(a_.value.args[0])] = a_.targets[0].id
+        if isinstance(a_, ast.Assign) and isinstance(a_.targets[0], ast.Tuple) and len(a_.targets[0].elts) == 2 and isinstance(a_.value, ast.GeneratorExp) and "get_dimensionality" in norm(a_.value.elt):
+            it = a_.value.generators[0].iter
+            if isinstance(it, (ast.Tuple, ast.List)) and len(it.elts) == 2:
+                dims[norm(it.elts[0])], dims[norm(it.elts[1])] = a_.targets[0].elts[0].id, a_.targets[0].elts[1].id
+    d1, d2 = dims.get(p1), dims.get(p2)
+    ck.check(d1 is not None and d2 is not None, "G-PROV", "_get_dimensionality_ratio|dimensionalities-of-both-units", f.loc(), "dimensionalities of both units are computed", "the dimensionalities of the two units are no longer both computed")
+    divs = [b_ for b_ in walk_local(f.node) if isinstance(b_, ast.BinOp) and isinstance(b_.op, ast.Div)]
+    def bound_from_items_of(name, d):
+        """`name` is the value variable of a loop / comprehension / next() over <d>.items() (possibly through iter(...))"""
+        for x in ast.walk(f.node):
+            tgt, it = None, None
+            if isinstance(x, (ast.For, ast.comprehension)):
+                tgt, it = x.target, x.iter
+            elif isinstance(x, ast.Assign) and isinstance(x.value, ast.Call) and call_name(x.value) == "next":
+                tgt, it = x.targets[0], x.value.args[0] if x.value.args else None
+            if tgt is None or it is None:
+                continue
+            if isinstance(tgt, ast.Tuple) and len(tgt.elts) == 2 and isinstance(tgt.elts[1], ast.Name) and tgt.elts[1].id == name:
+                src = " ".join(sorted(dfs.roots(it))) + " " + norm(it)
+                if f"{d}.items" in src or (d in src and "items" in src):
+                    return True
+        return False
+    okd = bool(divs) and all(isinstance(b_.left, ast.Subscript) and norm(b_.left.value) == d2 and isinstance(b_.right, ast.Name) and bound_from_items_of(b_.right.id, d1) for b_ in divs)
+    ck.check(okd, "G-PROV", "_get_dimensionality_ratio|common-ratio", f.loc(divs[0]) if divs else f.loc(), "ratio = exponent in unit2 / exponent in unit1, per dimension",
+             f"_get_dimensionality_ratio no longer computes the exponent ratio dim(unit2)/dim(unit1): {[norm(b_) for b_ in divs]}")
+    keysg = [c for c in walk_local(f.node) if isinstance(c, ast.Compare) and sorted([norm(c.left), norm(c.comparators[0])]) == sorted([f"{d1}.keys()", f"{d2}.keys()"])]
+    ck.check(len(keysg) == 1, "G-PROV", "_get_dimensionality_ratio|same-dimension-set-required", f.loc(), "None when the dimension sets differ", "the test that both units involve the same set of dimensions is gone")
+    rets = shape.returns_of(f.node)
+    ck.check(any(isinstance(r.value, ast.Constant) and r.value.value is None for r in rets) and any(isinstance(r.value, ast.Name) for r in rets), "G-PROV", "_get_dimensionality_ratio|none-or-common-ratio", f.loc(), "returns None or the common ratio", "the function no longer answers None / the common ratio")
     from .C16 import inplace_primitives_rule
     inplace_primitives_rule(ck, ix)  # only in-place forms may rescale/rebind their target
     from .. import memo as _memo
